@@ -83,7 +83,7 @@ def unit_WriterRouting(repo):
     if ob is None: raise Shape("fmt_subscriber.rs on_event not found")
     j = ' '.join(ob)
     ok_branch = j.split('. is_ok ( )', 1)
-    n_for = n_plain = n_write = 0; order_ok = False; clears_first = False
+    n_for = n_plain = n_write = 0; order_ok = False; clears_first = False; busy_fallback = False
     if len(ok_branch) == 2:
         then = ok_branch[1].split('} else', 1)[0]
         n_for = then.count('self . make_writer . make_writer_for ( event . metadata ( ) )')
@@ -91,6 +91,8 @@ def unit_WriterRouting(repo):
         n_write = then.count('io :: Write :: write_all ( & mut writer , buf . as_bytes ( ) )') + then.count('writer . write_all (')
         order_ok = n_for == 1 and n_write == 1 and then.find('make_writer_for') < then.find('write_all')
         before = ok_branch[0]
+        busy_fallback = ('_ => { b = String :: new ( ) ; & mut b }' in before and 'return' not in before.split()
+                         and 'let borrow = buf . try_borrow_mut ( ) ;' in before)
         clears_first = 'buf . clear ( )' in before[before.find('let mut buf = match borrow'):] if 'let mut buf = match borrow' in before else False
     clears_after = j.rstrip().endswith('buf . clear ( ) ; } ) ;') or 'buf . clear ( ) ; } )' in j
     L = ["/- GENERATED by /verif/translator (unit WriterRouting) from %s sha256/16=%s, %s sha256/16=%s — do not edit. -/" % (f, rtok.sha(src), f2, rtok.sha(src2)),
@@ -111,6 +113,8 @@ def unit_WriterRouting(repo):
     L.append("/-- the thread-local buffer is cleared BEFORE formatting (so text left by a formatter that panicked cannot leak into the next record) / after writing -/")
     L.append("def onEventClearsBefore : Bool := %s" % ('true' if clears_first else 'false'))
     L.append("def onEventClearsAfter : Bool := %s" % ('true' if clears_after else 'false'))
+    L.append("/-- when the thread-local buffer is already borrowed (the thread is formatting another event whose value's Debug / Display\nemits through the dispatcher) `on_event` formats into a fresh String and goes on: no early return before the record is written -/")
+    L.append("def onEventBusyBufferFallsBack : Bool := %s" % ('true' if busy_fallback else 'false'))
     L.append("end TM.Gen.WriterRouting")
     return "\n".join(L) + "\n", ["%s sha256/16=%s" % (f, rtok.sha(src)), "%s sha256/16=%s" % (f2, rtok.sha(src2))]
 
